@@ -116,11 +116,19 @@ func unifyCase(w *gal.Writer, class string, originals []string, inputs []build.V
 		}
 		obs[i] = o.gal()
 	}
+	var rot []build.VerifResolved
+	if len(inputs) > 0 {
+		rot = append(append(rot, inputs[1:]...), inputs[0])
+	}
+	obsRot := make([]string, 2)
+	for i := range obsRot {
+		obsRot[i] = runUnify(originals, rot).gal()
+	}
 	ins := make([]string, len(inputs))
 	for i, r := range inputs {
 		ins[i] = galResolved(r)
 	}
-	term := fmt.Sprintf("{| u_originals := %s; u_inputs := %s; u_runs := %s |}", gal.StrList(originals), gal.List(ins), gal.List(obs))
+	term := fmt.Sprintf("{| u_originals := %s; u_inputs := %s; u_runs := %s; u_runs_rot := %s |}", gal.StrList(originals), gal.List(ins), gal.List(obs), gal.List(obsRot))
 	key := fmt.Sprintf("%s|%s", gal.StrList(originals), gal.List(ins))
 	trivial := len(inputs) < 2 || len(originals) == 0
 	w.Add(gal.Case{Term: term, Class: class + "/" + first.Kind, Trivial: trivial, Key: key,
@@ -346,7 +354,7 @@ func main() {
 	out := flag.String("out", "", "cases directory")
 	seed := flag.Uint64("seed", 1, "seed")
 	tier := flag.String("tier", "quick", "tier")
-	stage := flag.String("stage", "unify", "unify|provname|e2e")
+	stage := flag.String("stage", "unify", "unify|provname|api|cli")
 	_ = flag.String("replay", "", "unused: cases are regenerated from the seed")
 	flag.Parse()
 	var err error
@@ -355,8 +363,10 @@ func main() {
 		err = unifyStage(*out, *seed, *tier)
 	case "provname":
 		err = provnameStage(*out, *seed)
-	case "e2e":
-		err = e2eStage(*out, *seed, *tier)
+	case "api":
+		err = apiStage(*out, *seed, *tier)
+	case "cli":
+		err = cliStage(*out, *seed, *tier)
 	default:
 		err = fmt.Errorf("unknown stage %q", *stage)
 	}
